@@ -31,7 +31,7 @@ def do_import():
         for patch in sorted(glob.glob(d + "/m*.patch")):
             k = os.path.basename(patch)[:-6]
             dst = os.path.join(SEEDED, f"{pid}-{k}")
-            if os.path.exists(dst):
+            if os.path.exists(dst) or not os.path.exists(os.path.join(d, f"{k}_meta.json")):
                 continue
             os.makedirs(dst)
             shutil.copy(patch, os.path.join(dst, "patch.diff"))
@@ -106,6 +106,7 @@ def detect(sid, checks, tier="quick"):
             out_all[c] = {"exit": rc, "lines": viol[:6]}
     finally:
         drop(wt)
+        shutil.rmtree(os.path.join(VERIF, "run", "lean-alt-" + sid), ignore_errors=True)
     meta.setdefault("detection", {}).update(out_all)
     meta["detected_by"] = sorted(c for c, r in meta["detection"].items() if r["exit"] == 1)
     json.dump(meta, open(os.path.join(d, "meta.json"), "w"), indent=1)
